@@ -6,7 +6,11 @@ Driver for E14 (C18): replays the harness's labels on the composed model (one `N
 client slot five `Notify.Cache.State`s whose `bump`/`announce`/`handle` labels are driven by the
 server model's outputs) and evaluates the C18 monitors on the IMPLEMENTATION's observations.
 
-`listen` / `subscribe` of a 2026-07-28 session are the model labels `listen` (registration section)
+Listen names and request ids: `m` (connect-time listen) = 0, `r<j>` (`ClientSession.Subscribe(u<j>)`) = j+1,
+`L<n>` (raw listen opened by `xlisten`) = 10+n.  Any number of them may be open on one session and be
+granted the same kinds / URI; they end in any order (`xend`, `unsubscribe`).
+
+`listen` / `subscribe` / `xlisten` of a 2026-07-28 session are the model labels `listen` (registration section)
 and `listenAck` (acknowledgement write) back to back — the harness has no schedule point between
 them.  With `hold` the server goroutine that runs the handler is parked right after the write of the
 acknowledgement returned (the client has it) until `ackdone`: every other op can be placed in that
@@ -22,7 +26,9 @@ Op grammar (one label per record; observation after `=>`):
   connect c<i> <sid> legacy|modern <mask>          => ok | ok listen-held
   listen c<i> [hold]                               => ack <kinds|-> [parked]
   subscribe c<i> u<j> [hold] / unsubscribe c<i> u<j>  => ok | noop | ack - u<j> [parked]
-  ackdone c<i> <m|r<j>>                            => ok          (the handler held right after its ack write goes on)
+  xlisten c<i> L<n> <mask|-> [u<j>] [hold]         => ack <kinds|-> [u<j>] [parked]   (a further, raw subscriptions/listen of a connected 2026-07-28 session; kinds only or one URI)
+  xend c<i> <m|L<n>>                               => ok          (that listen is cancelled and its handler has ended; r<j> ends through unsubscribe)
+  ackdone c<i> <m|r<j>|L<n>>                       => ok          (the handler held right after its ack write goes on)
   close c<i>                                       => ok
   rupdated u<j>                                    => sent@<t> …
   list c<i> <tools|prompts|resources|templates|read:j> <n|post|pre>  => ret v<N> hit|miss | held v<N> | pre
@@ -140,7 +146,13 @@ def slotOfSid (y : Sys) (sid : Nat) : Option Nat :=
 def stampTok : Option Nat → String
   | none => "plain"
   | some 0 => "m"
-  | some (n + 1) => s!"r{n}"
+  | some (n + 1) => if n + 1 ≥ 10 then s!"L{n + 1 - 10}" else s!"r{n}"
+
+/-- `m` ↦ 0, `L<n>` ↦ 10+n (the listens `xend` can end). -/
+def parseXName (s : String) : Option Nat :=
+  if s == "m" then some 0
+  else if s.startsWith "L" then (s.drop 1).toNat?.map (· + 10)
+  else none
 
 def fmtSent (now : Nat) (toks : List (Nat × String)) : String :=
   let sorted := sortBy (fun a b => a.1 ≤ b.1) toks
@@ -303,6 +315,29 @@ def modelStep (y : Sys) (toks : List String) : Sys × String :=
       let d := { d with rsubs := d.rsubs ++ [u], parked := if parks then d.parked ++ [s!"r{u}"] else d.parked }
       (({ y with srv := s }).setSlot i d, if parks then a ++ " parked" else a)
     | _, _, _ => (y, "bad-op")
+  | "xlisten" :: c :: name :: mask :: rest =>
+    let (us, rest) := match rest with
+      | u :: r => if u.startsWith "u" then ([u], r) else ([], rest)
+      | [] => ([], [])
+    match parseSlot c, parseXName name, holdTok rest, us.mapM parseUri with
+    | some i, some id, some hold, some uris =>
+      let d := y.slot i
+      let kinds := parseMask mask
+      if !d.used || !d.connected || !d.modern || id < 10 || !listenShape kinds uris || d.parked.contains name
+         || y.srv.listens.any (fun l => l.sid == d.sid && l.id == id) then (y, "refused") else
+      let (s, outs) := listenBoth y.srv d.sid id kinds uris
+      let a := firstAck outs
+      let parks := hold && a != "noack"
+      let d := { d with parked := if parks then d.parked ++ [name] else d.parked }
+      (({ y with srv := s }).setSlot i d, if parks then a ++ " parked" else a)
+    | _, _, _, _ => (y, "bad-op")
+  | ["xend", c, name] =>
+    match parseSlot c, parseXName name with
+    | some i, some id =>
+      let d := y.slot i
+      if !d.used || !d.connected || !d.modern || d.parked.contains name || !y.srv.acked.contains (d.sid, id) then (y, "refused") else
+      ({ y with srv := listenEnd y.srv d.sid id }, "ok")
+    | _, _ => (y, "bad-op")
   | ["ackdone", c, which] =>
     match parseSlot c with
     | some i =>
@@ -406,16 +441,30 @@ def modelStep (y : Sys) (toks : List String) : Sys × String :=
 Built only from the labels and the implementation's observations (acks it sent, deliveries it made,
 versions it returned) — never from the model state above. -/
 
+/-- A live listen as the IMPLEMENTATION acknowledged it. -/
+structure MListen where
+  name : String
+  kinds : List Kind
+  uris : List Nat
+
+/-- A listen ended while a live, acknowledged listen of the same session shared a grant with it. -/
+structure MLost where
+  ended : String
+  survivor : String
+  what : String        -- kind letter or u<j>
+  endedOlder : Bool
+
 structure MSlot where
   connected : Bool := false
   modern : Bool := false
-  granted : List Kind := []      -- kinds the implementation's ack of the connect-time listen granted
-  uris : List Nat := []          -- live resource subscriptions (legacy: subscribe ok; modern: acked listen)
-  otherListenEnded : Bool := false  -- a per-URI listen of this session ended after `granted` was set (F19 shape)
+  listens : List MListen := []   -- live listens of the session with a non-empty acknowledged grant, oldest first
+  luris : List Nat := []         -- legacy resources/subscribe answered ok and not undone
+  endedOther : Bool := false     -- a listen of this session ended while another one was live (F19 shape)
+  lost : List MLost := []
   owed : List Kind := []
   skipped : List Kind := []      -- owed kinds for which a callback ran without reaching this (entitled) session
-  window : List String := []     -- listen handlers held right after the write of their ack ("m", "r<j>")
-  skippedAck : List Kind := []   -- … and the callback ran inside the window of the connect-time listen
+  window : List String := []     -- listen handlers held right after the write of their ack ("m", "r<j>", "L<n>")
+  skippedAck : List Kind := []   -- … and the callback ran inside the window of a listen granted the kind
   maxHandled : List (String × Nat) := []
   invalidated : List String := []
   suspect : List (String × Nat) := []
@@ -472,8 +521,70 @@ def MSlot.handled (d : MSlot) (m : Mon) (keys : List String) : MSlot :=
     { d with maxHandled := assocSet d.maxHandled key (max (d.maxOf key) (m.verOfKey key)),
              invalidated := if d.invalidated.contains key then d.invalidated else d.invalidated ++ [key] }) d
 
+/-- Some live, acknowledged listen of the session was granted the kind. -/
+def MSlot.grantedK (d : MSlot) (k : Kind) : Bool := d.listens.any (·.kinds.contains k)
+
+/-- The session's subscription to the URI is live. -/
+def MSlot.grantedU (d : MSlot) (u : Nat) : Bool :=
+  if d.modern then d.listens.any (·.uris.contains u) else d.luris.contains u
+
+/-- The handler of a live listen that was granted the kind / URI is held right after its ack write. -/
+def MSlot.windowK (d : MSlot) (k : Kind) : Bool :=
+  d.listens.any (fun l => l.kinds.contains k && d.window.contains l.name)
+def MSlot.windowU (d : MSlot) (u : Nat) : Bool :=
+  d.listens.any (fun l => l.uris.contains u && d.window.contains l.name)
+
 def entitledNow (d : MSlot) (k : Kind) : Bool :=
-  d.connected && (!d.modern || d.granted.contains k)
+  d.connected && (!d.modern || d.grantedK k)
+
+/-- A listen the implementation acknowledged with a non-empty grant is live from now on. -/
+def MSlot.addListen (d : MSlot) (name : String) (kinds : List Kind) (uris : List Nat) : MSlot :=
+  if kinds.isEmpty && uris.isEmpty then d else
+  { d with listens := d.listens.filter (·.name != name) ++ [⟨name, kinds, uris⟩] }
+
+/-- The listen `x` ended (the client cancelled it and the implementation's handler has returned).
+Every live listen of the session that shares a grant with it is remembered: if the session is later
+found missing from that table, it was this end that removed the entry. -/
+def MSlot.endListen (d : MSlot) (x : String) : MSlot :=
+  match d.listens.find? (·.name == x) with
+  | none => d
+  | some lx =>
+    let idx (n : String) : Nat := (d.listens.findIdx? (·.name == n)).getD 0
+    let others := d.listens.filter (·.name != x)
+    let recs := others.flatMap (fun y =>
+      (Kind.all.filter (fun k => lx.kinds.contains k && y.kinds.contains k)).map
+        (fun k => (⟨x, y.name, kindLetter k, idx x < idx y.name⟩ : MLost)) ++
+      (lx.uris.filter y.uris.contains).map (fun u => (⟨x, y.name, s!"u{u}", idx x < idx y.name⟩ : MLost)))
+    { d with listens := others, endedOther := d.endedOther || !others.isEmpty,
+             lost := d.lost.filter (fun r => r.survivor != x) ++ recs }
+
+/-- A table dump shows the session in the table of `what`: the ends recorded so far removed nothing. -/
+def MSlot.present (d : MSlot) (what : String) : MSlot := { d with lost := d.lost.filter (·.what != what) }
+
+/-- The session is missing from the table of `what` although a live, acknowledged listen was granted it:
+was it the end of an overlapping listen that removed the entry? -/
+def MSlot.lostClause (d : MSlot) (what : String) (seen : String) : Option String :=
+  -- the most recent such end
+  match d.lost.reverse.find? (fun r => r.what == what && d.listens.any (·.name == r.survivor)) with
+  | none => none
+  | some r =>
+    if d.window.contains r.survivor then
+      some (s!"C18: ack_after_registration or acked_stays_served (overlapping listens): the session is missing from the table of a subscription while the handler of its live listen that was granted it is still held right after its acknowledgement write AND another listen of the session that was granted the same thing has ended (registered after the acknowledgement, or removed by that end) [ended={r.ended} survivor={r.survivor} what={what}; seen: {seen}]")
+    else
+    let tab := if what.startsWith "u" then "resource" else "list-changed"
+    let head := s!"C18: acked_stays_served (overlapping listens, {tab}): "
+    let body :=
+      if what.startsWith "u" then
+        if r.endedOlder then
+          "the end of the OLDER subscriptions/listen stream unsubscribed the session from the URI although a newer, still live, acknowledged stream of the same session was granted the same URI"
+        else
+          "the end of the NEWER subscriptions/listen stream unsubscribed the session from the URI although an older, still live, acknowledged stream of the same session was granted the same URI"
+      else
+        if r.endedOlder then
+          "the end of the OLDER subscriptions/listen stream took the session out of the list-changed table although a newer, still live, acknowledged stream of the same session was granted the same kind"
+        else
+          "the end of the NEWER subscriptions/listen stream took the session out of the list-changed table although an older, still live, acknowledged stream of the same session was granted the same kind"
+    some (head ++ body ++ s!" [ended={r.ended} survivor={r.survivor} what={what}; seen: {seen}]")
 
 def parseRet (impl : String) : Option (Nat × Bool) :=
   match words impl with
@@ -498,6 +609,12 @@ def parseTables (impl : String) : List (String × List String) :=
     match piece.splitOn "[" with
     | [name, body] => (name, words (body.replace "]" ""))
     | _ => ("", []))
+
+/-- `ack <kinds|-> [u<j>…] [parked]` ↦ (kinds, uris, parked). -/
+def parseAck (impl : String) : Option (List Kind × List Nat × Bool) :=
+  match words impl with
+  | "ack" :: ks :: rest => some (parseMask ks, rest.filterMap parseUri, rest.contains "parked")
+  | _ => none
 
 def monitorStep (m : Mon) (toks : List String) (impl : String) : Mon × Option String :=
   match toks with
@@ -532,8 +649,9 @@ def monitorStep (m : Mon) (toks : List String) (impl : String) : Mon × Option S
           else if m.cap k == .off then some "C18: none_when_disabled: list_changed delivered although the capability is switched off"
           else if !d.connected then some "C18: fanout_entitled_only: delivery to a session that is not connected"
           else if !d.modern && x.stamp != "plain" then some "C18: fanout_entitled_only: legacy session got a stamped notification"
-          else if d.modern && !d.granted.contains k then some "C18: fanout_entitled_only: 2026-07-28 session without a matching subscription got the notification"
-          else if d.modern && x.stamp != "m" then some "C18: fanout_entitled_only: notification not stamped with the session's listen request id"
+          else if d.modern && !d.grantedK k then some "C18: fanout_entitled_only: 2026-07-28 session without a matching subscription got the notification"
+          else if d.modern && !d.listens.any (fun l => l.name == x.stamp && l.kinds.contains k) then
+            some "C18: fanout_entitled_only: notification not stamped with the request id of a live listen of the session that was granted the kind"
           else if x.hk != "-" && x.hk != kindLetter k then some "C18: fanout_entitled_only: notification dispatched to the wrong client handler"
           else none)
         let dup := (List.range 3).any (fun i => (ds.filter (·.slot == i)).length > 1)
@@ -550,7 +668,7 @@ def monitorStep (m : Mon) (toks : List String) (impl : String) : Mon × Option S
                                   skippedAck := d.skippedAck.filter (· != k) }).handled m (keysOfKind k)
           else if d.owed.contains k && entitledNow d k then
             { d with skipped := if d.skipped.contains k then d.skipped else d.skipped ++ [k],
-                     skippedAck := if d.modern && d.window.contains "m" && !d.skippedAck.contains k
+                     skippedAck := if d.modern && d.windowK k && !d.skippedAck.contains k
                                    then d.skippedAck ++ [k] else d.skippedAck }
           else { d with owed := d.owed.filter (· != k) }) }
         (m, viol)
@@ -560,23 +678,33 @@ def monitorStep (m : Mon) (toks : List String) (impl : String) : Mon × Option S
       if impl.startsWith "ok" then (m.setSlot i { connected := true, modern := g == "modern" }, none) else (m, none)
     | none => (m, none)
   | "listen" :: c :: _ =>
+    match parseSlot c, parseAck impl with
+    | some i, some (ks, us, parked) =>
+      let d := (m.slot i).addListen "m" ks us
+      (m.setSlot i { d with window := if parked then d.window ++ ["m"] else d.window }, none)
+    | _, _ => (m, none)
+  | "xlisten" :: c :: name :: _ =>
+    match parseSlot c, parseAck impl with
+    | some i, some (ks, us, parked) =>
+      let d := (m.slot i).addListen name ks us
+      (m.setSlot i { d with window := if parked then d.window ++ [name] else d.window }, none)
+    | _, _ => (m, none)
+  | ["xend", c, name] =>
     match parseSlot c with
-    | some i =>
-      let d := m.slot i
-      match words impl with
-      | "ack" :: ks :: rest =>
-        (m.setSlot i { d with granted := parseMask ks, otherListenEnded := false,
-                              window := if rest.contains "parked" then d.window ++ ["m"] else d.window }, none)
-      | _ => (m, none)
+    | some i => if impl == "ok" then (m.setSlot i ((m.slot i).endListen name), none) else (m, none)
     | none => (m, none)
   | "subscribe" :: c :: u :: _ =>
     match parseSlot c, parseUri u with
     | some i, some u =>
       let d := m.slot i
-      let ok := if d.modern then (words impl).contains s!"u{u}" && impl.startsWith "ack" else impl == "ok"
-      let d := if d.modern && impl.startsWith "ack" && (words impl).contains "parked"
-               then { d with window := d.window ++ [s!"r{u}"] } else d
-      if ok && !d.uris.contains u then (m.setSlot i { d with uris := d.uris ++ [u] }, none) else (m.setSlot i d, none)
+      if !d.modern then
+        if impl == "ok" && !d.luris.contains u then (m.setSlot i { d with luris := d.luris ++ [u] }, none) else (m, none)
+      else
+        match parseAck impl with
+        | some (ks, us, parked) =>
+          let d := d.addListen s!"r{u}" ks us
+          (m.setSlot i { d with window := if parked then d.window ++ [s!"r{u}"] else d.window }, none)
+        | none => (m, none)
     | _, _ => (m, none)
   | ["ackdone", c, which] =>
     match parseSlot c with
@@ -589,8 +717,8 @@ def monitorStep (m : Mon) (toks : List String) (impl : String) : Mon × Option S
     | some i, some u =>
       let d := m.slot i
       if impl == "ok" then
-        (m.setSlot i { d with uris := d.uris.filter (· != u),
-                              otherListenEnded := d.otherListenEnded || (d.modern && d.uris.contains u) }, none)
+        if d.modern then (m.setSlot i (d.endListen s!"r{u}"), none)
+        else (m.setSlot i { d with luris := d.luris.filter (· != u) }, none)
       else (m, none)
     | _, _ => (m, none)
   | ["close", c] =>
@@ -608,11 +736,15 @@ def monitorStep (m : Mon) (toks : List String) (impl : String) : Mon × Option S
         let got (i : Nat) : Bool := ds.any (·.slot == i)
         let perSlot := (List.range 3).map (fun i =>
           let d := m.slot i
-          let want := d.connected && d.uris.contains u
+          let want := d.connected && d.grantedU u
           let n := (ds.filter (·.slot == i)).length
-          if want && n == 0 && d.modern && d.window.contains s!"r{u}" then
-            some "C18: ack_after_registration: the server acknowledged the session's subscription to the URI, but a ResourceUpdated call made while the listen handler was still held right after the acknowledgement write did not reach the session (the subscription is registered after it is acknowledged)"
-          else if want && n == 0 then some "C18: updated_reaches_exactly_subscribers: a session subscribed to the URI was not notified"
+          if want && n == 0 then
+            match d.lostClause s!"u{u}" "a ResourceUpdated call did not reach the session" with
+            | some c => some c
+            | none =>
+              if d.modern && d.windowU u then
+                some "C18: ack_after_registration: the server acknowledged the session's subscription to the URI, but a ResourceUpdated call made while the listen handler was still held right after the acknowledgement write did not reach the session (the subscription is registered after it is acknowledged)"
+              else some "C18: updated_reaches_exactly_subscribers: a session subscribed to the URI was not notified"
           else if !want && n > 0 then some "C18: updated_reaches_exactly_subscribers: a session not subscribed to the URI was notified"
           else if n > 1 then some "C18: updated_reaches_exactly_subscribers: a subscriber was notified more than once"
           else none)
@@ -621,7 +753,8 @@ def monitorStep (m : Mon) (toks : List String) (impl : String) : Mon × Option S
           if x.method != resourceUpdatedMethod then some "C18: updated_reaches_exactly_subscribers: wrong notification method"
           else if x.hk != s!"u{u}" then some "C18: updated_reaches_exactly_subscribers: notification for another URI"
           else if !d.modern && x.stamp != "plain" then some "C18: updated_reaches_exactly_subscribers: legacy session got a stamped notification"
-          else if d.modern && x.stamp != s!"r{u}" then some "C18: updated_reaches_exactly_subscribers: not stamped with the id of the listen carrying the subscription"
+          else if d.modern && !d.listens.any (fun l => l.name == x.stamp && l.uris.contains u) then
+            some "C18: updated_reaches_exactly_subscribers: not stamped with the request id of a live listen of the session that carries the subscription"
           else none)
         let m := { m with slots := (List.range 3).map (fun i =>
           let d := m.slot i
@@ -669,22 +802,38 @@ def monitorStep (m : Mon) (toks : List String) (impl : String) : Mon × Option S
       (match parseSlot ((w.splitOn "=").headD "") with
        | some i => !(m.slot i).connected
        | none => false))
-    -- acked_stays_registered: what the implementation acknowledged (and the client has not ended) is in
-    -- the implementation's tables
+    -- acked_stays_served: the session of every listen the implementation acknowledged (and the client has
+    -- not ended) is in the implementation's table of everything that listen was granted, under the request
+    -- id of a live listen of the session that was granted the same thing
     let tabs := parseTables impl
     let has (t : String) (e : String) : Bool := ((tabs.lookup t).getD []).contains e
     let missing := (List.range 3).map (fun i =>
       let d := m.slot i
       if !d.connected then none else
-      let kindMiss := d.modern && d.granted.any (fun k => !has (kindLetter k).toUpper s!"c{i}=m")
-      let uriMiss := d.uris.any (fun u => !has s!"U{u}" (if d.modern then s!"c{i}=r{u}" else s!"c{i}=q"))
-      if (kindMiss && d.window.contains "m") || (d.modern && d.uris.any (fun u => d.window.contains s!"r{u}" && !has s!"U{u}" s!"c{i}=r{u}")) then
-        some "C18: ack_after_registration: the server has written the acknowledgement of a subscriptions/listen (the handler is held right after that write) but the subscription it acknowledges is not in the server's table"
-      else if kindMiss && d.otherListenEnded then
-        some "C18: F19 acked_stays_registered: the session's acknowledged list-changed subscription left the table when another subscriptions/listen of the same session ended"
-      else if kindMiss || uriMiss then
-        some "C18: acked_stays_registered: a subscription the server acknowledged, and the client has not ended, is missing from the server's table"
-      else none)
+      let kindMiss := if !d.modern then [] else Kind.all.filter (fun k => d.grantedK k &&
+        !d.listens.any (fun l => l.kinds.contains k && has (kindLetter k).toUpper s!"c{i}={l.name}"))
+      let uriMiss := (List.range 2).filter (fun u => d.grantedU u &&
+        (if d.modern then !d.listens.any (fun l => l.uris.contains u && has s!"U{u}" s!"c{i}={l.name}")
+         else !has s!"U{u}" s!"c{i}=q"))
+      match first (kindMiss.map (fun k => d.lostClause (kindLetter k) "table dump") ++
+                   uriMiss.map (fun u => d.lostClause s!"u{u}" "table dump")) with
+      | some c => some c
+      | none =>
+        if kindMiss.any d.windowK || (d.modern && uriMiss.any d.windowU) then
+          some "C18: ack_after_registration: the server has written the acknowledgement of a subscriptions/listen (the handler is held right after that write) but the subscription it acknowledges is not in the server's table"
+        else
+          if !kindMiss.isEmpty && d.endedOther then
+            some "C18: F19 acked_stays_registered: the session's acknowledged list-changed subscription left the table when another subscriptions/listen of the same session ended"
+          else if !kindMiss.isEmpty || !uriMiss.isEmpty then
+            some "C18: acked_stays_registered: a subscription the server acknowledged, and the client has not ended, is missing from the server's table"
+          else none)
+    let m := { m with slots := (List.range 3).map (fun i =>
+      let d := m.slot i
+      if !d.connected || !d.modern then d else
+      let d := Kind.all.foldl (fun d k =>
+        if d.listens.any (fun l => l.kinds.contains k && has (kindLetter k).toUpper s!"c{i}={l.name}") then d.present (kindLetter k) else d) d
+      (List.range 2).foldl (fun d u =>
+        if d.listens.any (fun l => l.uris.contains u && has s!"U{u}" s!"c{i}={l.name}") then d.present s!"u{u}" else d) d) }
     (m, first ((if bad then some "C18: closed_sessions_forgotten: a subscription table or the session list still mentions a closed session" else none) :: missing))
   | ["end"] =>
     let left := (List.range 3).map (fun i =>
@@ -692,13 +841,16 @@ def monitorStep (m : Mon) (toks : List String) (impl : String) : Mon × Option S
       match Kind.all.find? (fun k => d.owed.contains k && entitledNow d k) with
       | none => none
       | some k =>
-        if d.modern && d.skippedAck.contains k then
-          some "C18: ack_after_registration / at_least_one_after_burst: the session held the acknowledgement of its list-changed subscription when the callback took its snapshot (the listen handler was held right after the acknowledgement write), the snapshot did not include it, and no later notification reached it"
-        else if d.modern && d.otherListenEnded then
-          some "C18: F19 at_least_one_after_burst: the session's list-changed subscription was dropped when another subscriptions/listen of the same session ended"
-        else if d.skipped.contains k then
-          some "C18: at_least_one_after_burst: callbacks ran after the last change but none of them notified this entitled session"
-        else some "C18: no_lost_notification: changes were made, every timer has fired and every callback has run, yet an entitled session was never notified after the last change")
+        match (if d.modern then d.lostClause (kindLetter k) "no notification reached the session after the last change" else none) with
+        | some c => some c
+        | none =>
+          if d.modern && d.skippedAck.contains k then
+            some "C18: ack_after_registration / at_least_one_after_burst: the session held the acknowledgement of its list-changed subscription when the callback took its snapshot (the listen handler was held right after the acknowledgement write), the snapshot did not include it, and no later notification reached it"
+          else if d.modern && d.endedOther then
+            some "C18: F19 at_least_one_after_burst: the session's list-changed subscription was dropped when another subscriptions/listen of the same session ended"
+          else if d.skipped.contains k then
+            some "C18: at_least_one_after_burst: callbacks ran after the last change but none of them notified this entitled session"
+          else some "C18: no_lost_notification: changes were made, every timer has fired and every callback has run, yet an entitled session was never notified after the last change")
     (m, first left)
   | _ => (m, none)
 
